@@ -341,6 +341,8 @@ def run(tier):
                 group(*args)
             except llir.Unsupported as ex_:
                 rep.harness_error("IR construct outside the interpreter's subset in %s: %s" % (group.__name__, ex_))
+            except (IndexError, KeyError, AttributeError, TypeError, z3.Z3Exception) as ex_:
+                rep.harness_error("interpreter failure in %s (memory access or value outside the model): %r" % (group.__name__, ex_))
         rep.functions.update(sorted(ex.funcs_run))
         rep.paths += ex.npaths
         rep.queries += ex.nqueries
